@@ -267,22 +267,75 @@ fn probes(cx: &mut Ctx, s: &Schema) {
     }
 }
 
-/// SUM/AVG/MIN/MAX/COUNT over a DOUBLE column and GROUP BY an integer key against the definition
-/// computed in f64 (values are multiples of 1/4: every sum is exact); floats are not modelled.
+/// Large inputs for the batch loops of the columnar kernels (1024 values per batch): more than
+/// two full batches of non-NULL qualifying values, counts that are not multiples of 1024, the
+/// unique minimum / maximum planted in the first batch, the last full batch or the remainder,
+/// with and without a WHERE clause, on both paths, against the definition-level reference.
+fn large_probes(cx: &mut Ctx, s: &Schema) {
+    let n = Lit::Null;
+    let i = |x: i64| Lit::I(x);
+    let item = |f: Fn_, arg: Option<usize>| Item { f, arg, distinct: false };
+    let plain = |items: Vec<Item>, preds: Vec<Pred>| Stmt { items, preds, having: None, order_by: false, limit: None, offset: None };
+    let cmp = |op: Cmp, col: usize, lit: Lit| Pred::Cmp { op, col, lit, reversed: false };
+    // (rows, position of the minimum of c0, position of its maximum)
+    for (n_rows, at_min, at_max) in [(2400i64, 10i64, 20i64), (3300, 2500, 2600), (2600, 2590, 1500), (3072 + 341, 3400, 5)] {
+        let t = Table {
+            rows: (0..n_rows)
+                .map(|k| {
+                    let c0 = if k == at_min { i(-500) } else if k == at_max { i(9000) } else if k % 11 == 0 { n.clone() } else { i(k % 97) };
+                    // c1 dense: minimum first, maximum last; c2 sparse (2 of 3 NULL)
+                    vec![c0, i(k), if k % 3 == 0 { i(k % 5) } else { n.clone() }, Lit::S(STRS[(k % 7) as usize].to_string())]
+                })
+                .collect(),
+            fill: vec![],
+        };
+        let mut db = load_table(s, &t);
+        let rsx = rows_sx_of(&t);
+        for q in [
+            // statements the columnar path takes (no SUM over an integer column)
+            plain(vec![item(Fn_::Count, None), item(Fn_::Count, Some(0)), item(Fn_::Avg, Some(0)), item(Fn_::Min, Some(0)), item(Fn_::Max, Some(0))], vec![]),
+            plain(vec![item(Fn_::Avg, Some(0)), item(Fn_::Min, Some(0)), item(Fn_::Max, Some(0))], vec![cmp(Cmp::Ge, 1, i(3))]),
+            plain(vec![item(Fn_::Min, Some(1)), item(Fn_::Max, Some(1)), item(Fn_::Avg, Some(1)), item(Fn_::Count, Some(1))], vec![]),
+            plain(vec![item(Fn_::Min, Some(1)), item(Fn_::Max, Some(1)), item(Fn_::Avg, Some(1))], vec![cmp(Cmp::Lt, 1, i(n_rows - 3))]),
+            plain(vec![item(Fn_::Min, Some(1)), item(Fn_::Max, Some(1))], vec![Pred::Between { col: 1, lo: i(7), hi: i(n_rows - 200) }]),
+            plain(vec![item(Fn_::Avg, Some(2)), item(Fn_::Min, Some(2)), item(Fn_::Max, Some(2)), item(Fn_::Count, Some(2))], vec![]),
+            plain(vec![item(Fn_::Min, Some(3)), item(Fn_::Max, Some(3)), item(Fn_::Count, Some(3))], vec![cmp(Cmp::Ge, 1, i(1))]),
+            // row path (SUM over integers declines the columnar path)
+            plain(vec![item(Fn_::Sum, Some(0)), item(Fn_::Sum, Some(1)), item(Fn_::Count, None)], vec![cmp(Cmp::Ge, 1, i(3))]),
+        ] {
+            run_plain(cx, s, &t, &mut db, &rsx, &q);
+            cx.rep.count("probe_statements_large");
+        }
+        run_grouped(cx, s, &t, &mut db, &rsx, 2, &[item(Fn_::Count, None), item(Fn_::Min, Some(0)), item(Fn_::Max, Some(1)), item(Fn_::Avg, Some(1))], &[]);
+        cx.rep.count("probe_statements_large");
+    }
+}
+
+/// SUM/AVG/MIN/MAX/COUNT over a DOUBLE column `d` and a NUMERIC column `m` (same values) and GROUP
+/// BY an integer key, against the definition computed in f64 (values are multiples of 1/4: every
+/// sum is exact); floats are not modelled.  The first tables are large (several 1024-value batches
+/// plus a remainder) with the unique extremes planted in chosen batches.
 fn float_stream(cx: &mut Ctx, rng: &mut Rng, tables: u64) {
-    for _ in 0..tables {
+    // (rows, NULL %, position of the minimum, position of the maximum)
+    let forced: [(usize, u64, usize, usize); 5] = [(1500, 10, 5, 1100), (2600, 0, 2590, 2100), (1024, 0, 1000, 3), (2050, 20, 2049, 700), (3300, 0, 40, 3000)];
+    for ti in 0..tables as usize + forced.len() {
         let class = *rng.pick(&[0u32, 1, 2, 2, 3]);
-        let n = gen_size(rng, class, 1100);
+        let (n, null_pct, at_min, at_max) = if ti < forced.len() { forced[ti] } else { (gen_size(rng, class, 1100), *rng.pick(&[0u64, 25, 100]), usize::MAX, usize::MAX) };
         let mut db = Db::new();
-        db.must("CREATE TABLE f (k INTEGER, d DOUBLE PRECISION)");
-        let null_pct = *rng.pick(&[0u64, 25, 100]);
+        db.must("CREATE TABLE f (k INTEGER, d DOUBLE PRECISION, m NUMERIC(12, 2))");
         let mut data: Vec<(i64, Option<f64>)> = vec![];
         let mut batch = vec![];
         for j in 0..n {
-            let d = if rng.below(100) < null_pct { None } else { Some(rng.range(0, 200) as f64 / 4.0 + 0.25) };
+            let mut d = if rng.below(100) < null_pct { None } else { Some(rng.range(0, 200) as f64 / 4.0 + 0.25) };
+            if j == at_min {
+                d = Some(0.0);
+            } else if j == at_max {
+                d = Some(5000.5);
+            }
             let k = rng.range(0, 3);
             data.push((k, d));
-            batch.push(format!("({}, {})", k, d.map(|x| format!("{}", x)).unwrap_or_else(|| "NULL".into())));
+            let txt = d.map(|x| format!("{:?}", x)).unwrap_or_else(|| "NULL".into());
+            batch.push(format!("({}, {}, {})", k, txt, txt));
             if batch.len() == 50 || j + 1 == n {
                 db.must(&format!("INSERT INTO f VALUES {}", batch.join(", ")));
                 batch.clear();
@@ -308,15 +361,28 @@ fn float_stream(cx: &mut Ctx, rng: &mut Rng, tables: u64) {
             None => matches!(got, vibesql_types::SqlValue::Null),
             Some(w) => f64_of(got).map(|g| (g - w).abs() <= 1e-9 * w.abs().max(1.0)).unwrap_or(false),
         };
-        let sql = "SELECT COUNT(*), COUNT(d), SUM(d), AVG(d), MIN(d), MAX(d) FROM f";
-        let all: Vec<&(i64, Option<f64>)> = data.iter().collect();
-        let want = def(&all);
-        for (path, out) in both(&mut db, sql) {
-            cx.rep.case(&format!("float|{}|{}|{}|{}", n, null_pct, path, sql), n > 0);
-            cx.rep.count("float_statements(direct oracle only)");
-            let ok = matches!(&out, Out::Rows(r) if r.len() == 1 && r[0].len() == 6 && r[0].iter().zip(&want).all(|(a, b)| close(a, b)));
-            if !ok {
-                cx.rep.fail(FailKind::Oracle, None, &format!("aggregate over DOUBLE column differs from the definition ({})", path), &format!("{};\n{};\nengine: {}\ndefinition: {:?}", db.log.join(";\n"), sql, out.brief(), want));
+        let filters: [(&str, fn(i64) -> bool); 3] = [("", |_| true), (" WHERE k >= 1", |k| k >= 1), (" WHERE k BETWEEN 1 AND 2 AND k < 2", |k| k == 1)];
+        for col in ["d", "m"] {
+            for (wh, keep) in filters.iter() {
+                let sql = format!("SELECT COUNT(*), COUNT({c}), SUM({c}), AVG({c}), MIN({c}), MAX({c}) FROM f{w}", c = col, w = wh);
+                let sel: Vec<&(i64, Option<f64>)> = data.iter().filter(|r| keep(r.0)).collect();
+                let want = def(&sel);
+                for (path, out) in both(&mut db, &sql) {
+                    cx.rep.case(&format!("float|{}|{}|{}|{}", n, null_pct, path, sql), n > 0);
+                    cx.rep.count("float_statements(direct oracle only)");
+                    if n > 2048 {
+                        cx.rep.count("float_statements_over_2_batches");
+                    }
+                    let ok = matches!(&out, Out::Rows(r) if r.len() == 1 && r[0].len() == 6 && r[0].iter().zip(&want).all(|(a, b)| close(a, b)));
+                    if !ok {
+                        cx.rep.fail(
+                            FailKind::Oracle,
+                            None,
+                            &format!("aggregate over {} column differs from the definition ({})", if col == "d" { "DOUBLE" } else { "NUMERIC" }, path),
+                            &format!("-- table f: {} rows, NULL {}%, minimum 0.0 at row {}, maximum 5000.5 at row {} (regenerate with the seed)\n{};\nengine: {}\ndefinition: {:?}", n, null_pct, at_min as i64, at_max as i64, sql, out.brief(), want),
+                        );
+                    }
+                }
             }
         }
         let gsql = "SELECT k, COUNT(*), COUNT(d), SUM(d), AVG(d), MIN(d), MAX(d) FROM f GROUP BY k";
@@ -333,7 +399,7 @@ fn float_stream(cx: &mut Ctx, rng: &mut Rng, tables: u64) {
                 });
         }
         if !ok {
-            cx.rep.fail(FailKind::Oracle, None, "GROUP BY aggregate over DOUBLE column differs from the definition", &format!("{};\n{};\nengine: {}", db.log.join(";\n"), gsql, out.brief()));
+            cx.rep.fail(FailKind::Oracle, None, "GROUP BY aggregate over DOUBLE column differs from the definition", &format!("-- table f: {} rows, NULL {}%\n{};\nengine: {}", n, null_pct, gsql, out.brief()));
         }
     }
 }
@@ -357,6 +423,7 @@ fn main() {
     {
         let mut cx = Ctx { rep: &mut rep, model: &mut model };
         probes(&mut cx, &s);
+        large_probes(&mut cx, &s);
         let tables = args.n(160, 1800);
         let per_table = args.n(8, 16);
         let big_hi = args.n(1100, 4000) as i64;
